@@ -27,6 +27,7 @@ def sh(cmd, env=None, cwd=None):
 
 
 def worker(wid, jobs, root, tag, threads):
+    wid += int(os.environ.get('SEEDED_WID_BASE', '0'))
     mrun = f'/tmp/srun{wid}'
     env = dict(os.environ, MRUN_ROOT=mrun, MVERIFY_WT=f'/tmp/sverify{wid}', VERIF_THREADS=str(threads))
     r = sh(f'python3 {HERE}/mutmatrix.py --setup', env=env)
